@@ -219,9 +219,14 @@ func (f *Field) NewVal(v *big.Int) reflect.Value {
 	return f.NewRaw(f.ToMont(new(big.Int).Mod(v, f.Q)))
 }
 
-// NewVec builds a Vector from raw values.
+// NewVec builds a Vector from raw values. It is a window into a larger array at a rotating offset (a fresh allocation is
+// 64-byte aligned, a window is not: vector kernels must not assume alignment), with spare capacity behind it.
+var newVecCount int
+
 func (f *Field) NewVec(raws []*big.Int) reflect.Value {
-	v := reflect.MakeSlice(f.VecT, len(raws), len(raws))
+	newVecCount++
+	off := newVecCount % 4
+	v := reflect.MakeSlice(f.VecT, len(raws)+off+2, len(raws)+off+2).Slice(off, off+len(raws))
 	for i, r := range raws {
 		f.SetRaw(v.Index(i).Addr(), r)
 	}
